@@ -53,6 +53,8 @@ def daemon_class():
             with self.v_lock:
                 self.v_disconnects.append(conn)
                 self.v_disconnect_event.notify_all()
+            if getattr(self, "v_hook_raises", False):
+                raise RuntimeError("the application's disconnect hook fails")
 
         def handleRequest(self, conn):
             with self.v_lock:
